@@ -439,6 +439,41 @@ def gen(rng, tier):
     b = Builder(rng)
     b.ops += [[50, 8, 8, 5, 5, 6, 7, 3, 4, 200, 6, 30], [50, 10, 10, 40, 6, 3, 10, 900, 4, 1], [50, 5, 7, 400, 6, 2, 4, 0, 5, 50], [50, 6]]
     b.tags.add('allocator'); add('alloc', b)
+    # (c'') coupons in HIGH columns (30, 31, 32, 33, 47, 62, 63): inputs of every flavor into unions in sparse-accumulator and in
+    #       bit-matrix mode, get_result, full dump, serialize round trip; plain sketches carrying such coupons across the window moves
+    HIGH = [30, 31, 32, 33, 47, 62, 63]
+    for flv in (1, 2, 3, 4):
+        for mode in ('acc', 'matrix'):
+            b = Builder(rng)
+            lgk = 8 if (flv == 1 and mode == 'acc') else rng.choice([5, 6])
+            a, sima = build_input(rng, b, lgk, flv if mode == 'matrix' or flv == 1 else 1)
+            rows = rng.sample(range(1 << lgk), 3)
+            for j, col in enumerate(HIGH): b.ops.append([3, a, (rows[j % 3] << 6) | col])
+            other, _ = build_input(rng, b, lgk + rng.choice([0, 1]), 1 if mode == 'acc' else rng.choice([2, 3, 4]))
+            b.ops.append([3, other, (rows[0] << 6) | 63]); b.ops.append([3, other, (((1 << lgk) - 1) << 6) | 31])
+            b.ops += [[5, a], [30, a]]
+            group = []
+            lgu = rng.choice([lgk, lgk + 2]) if mode == 'acc' else rng.choice([lgk - 1, lgk, lgk + 2])
+            for order in ([a, other], [other, a]):
+                u = b.reg(); b.ops.append([10, u, lgu, 9001])
+                for x in order: b.ops.append([rng.choice([11, 13]), u, x])
+                res = b.reg(); b.ops.append([12, u, res]); b.ops.append([5, res]); group.append(len(b.ops) - 1)
+                b.ops.append([30, res]); r2 = b.reg(); b.ops.append([6, res, r2]); b.ops.append([5, r2])
+            b.perm_groups.append(group)
+            b.tags.add('union'); b.tags.add('high-columns')
+            add('union-highcol', b)
+    for lgk in (4, 5):
+        b = Builder(rng)
+        r, sim = b.new_sketch(lgk, 9001); k = 1 << lgk; bset = sim.boundaries(); fb = [60]
+        for j, col in enumerate(HIGH + HIGH):
+            rc = (rng.randrange(k) << 6) | col
+            r = b.feed(r, sim, [3, r, rc], rc, bset, fb)
+        for rc in [(row << 6) | col for col in range(64) for row in rng.sample(range(k), k)]:
+            if sim.c() >= 47 * k: break
+            if sim.safe(rc): r = b.feed(r, sim, [3, r, rc], rc, bset, fb)
+        b.probe(r, sim, True)
+        b.tags.add('high-columns')
+        add('raw-highcol', b)
     # (d) row_col_from_two_hashes
     b = Builder(rng)
     for _ in range(60):
